@@ -208,3 +208,227 @@ def broadcast_shapes(shapes):
         return list(np.broadcast_shapes(*[tuple(s) for s in shapes]))
     except ValueError:
         return None
+
+
+# ---- C04 ---------------------------------------------------------------
+def _pos(v, what):
+    vs = v if isinstance(v, list) else [v]
+    if any(e <= 0 for e in vs):
+        raise Invalid("non-positive " + what)
+
+
+@ref("tile")
+def _(x, a):
+    _pos(a["reps"], "reps")
+    return _np(np.tile, x[0], tuple(a["reps"]))
+
+
+@ref("repeat")
+def _(x, a):
+    _pos(a["repeats"], "repeats")
+    return _np(np.repeat, x[0], a["repeats"], a["axis"])
+
+
+@ref("roll")
+def _(x, a):
+    return _np(np.roll, x[0], a["shift"] if isinstance(a["shift"], int) else tuple(a["shift"]), _axis(a["axis"]))
+
+
+@ref("pad")
+def _(x, a):
+    # index/pad.hpp: ONNX order [b_0..b_{d-1}, e_0..e_{d-1}], constant fill
+    v = x[0]
+    pw = a["pad_width"]
+    d = v.ndim
+    if len(pw) != 2 * d or any(p < 0 for p in pw):
+        raise Invalid("pad width")
+    return np.pad(v, [(pw[i], pw[d + i]) for i in range(d)], constant_values=a["value"])
+
+
+@ref("resize")
+def _(x, a):
+    # nearest-neighbour: source index floor(i * src / dst) per axis; same rank required, extents > 0
+    v = x[0]
+    dst = a["shape"]
+    if len(dst) != v.ndim or any(e <= 0 for e in dst):
+        raise Invalid("resize shape")
+    idx = np.ix_(*[[(i * s) // t for i in range(t)] for s, t in zip(v.shape, dst)])
+    return v[idx]
+
+
+@ref("take")
+def _(x, a):
+    return _np(np.take, x[0], a["indices"], a["axis"])
+
+
+@ref("compress")
+def _(x, a):
+    return _np(np.compress, a["condition"], x[0], a["axis"])
+
+
+@ref("concatenate")
+def _(x, a):
+    return _np(np.concatenate, (x[0], x[1]), a["axis"])
+
+
+@ref("stack")
+def _(x, a):
+    return _np(np.stack, (x[0], x[1]), a["axis"])
+
+
+@ref("hstack")
+def _(x, a):
+    return _np(np.hstack, (x[0], x[1]))
+
+
+@ref("vstack")
+def _(x, a):
+    return _np(np.vstack, (x[0], x[1]))
+
+
+@ref("dstack")
+def _(x, a):
+    return _np(np.dstack, (x[0], x[1]))
+
+
+@ref("column_stack")
+def _(x, a):
+    return _np(np.column_stack, (x[0], x[1]))
+
+
+@ref("split")
+def _(x, a):
+    parts = _np(np.split, x[0], a["ios"], a["axis"])
+    if a["k"] >= len(parts):
+        raise Invalid("k")
+    return parts[a["k"]]
+
+
+@ref("sliding_window")
+def _(x, a):
+    ws = a["window_shape"]
+    return _np(np.lib.stride_tricks.sliding_window_view, x[0], ws if isinstance(ws, int) else tuple(ws), _axis(a["axis"]))
+
+
+@ref("expand")
+def _(x, a):
+    # view/expand.hpp: extent n + (n-1)*spacing on each listed axis, element k*(spacing+1) is source element k, rest = fill
+    v = x[0]
+    axes = a["axis"] if isinstance(a["axis"], list) else [a["axis"]]
+    sp = a["spacing"] if isinstance(a["spacing"], list) else [a["spacing"]] * len(axes)
+    if len(sp) != len(axes) or any(s < 0 for s in sp):
+        raise Invalid("spacing")
+    nax = []
+    for ax in axes:
+        if not (-v.ndim <= ax < v.ndim):
+            raise Invalid("axis")
+        nax.append(ax % v.ndim)
+    if len(set(nax)) != len(nax):
+        raise Invalid("duplicate axis")
+    shape = list(v.shape)
+    for ax, s in zip(nax, sp):
+        shape[ax] = shape[ax] + (shape[ax] - 1) * s
+    out = np.full(shape, a["fill"], dtype=v.dtype)
+    sl = [slice(None)] * v.ndim
+    for ax, s in zip(nax, sp):
+        sl[ax] = slice(None, None, s + 1)
+    out[tuple(sl)] = v
+    return out
+
+
+@ref("diagonal")
+def _(x, a):
+    return _np(np.diagonal, x[0], a["offset"], a["axis1"], a["axis2"])
+
+
+@ref("diagflat")
+def _(x, a):
+    return _np(np.diagflat, x[0], a["k"])
+
+
+@ref("tril")
+def _(x, a):
+    if x[0].ndim < 2:
+        raise OutOfDomain("numpy promotes 1-d input to 2-d")
+    return _np(np.tril, x[0], a["k"])
+
+
+@ref("triu")
+def _(x, a):
+    if x[0].ndim < 2:
+        raise OutOfDomain("numpy promotes 1-d input to 2-d")
+    return _np(np.triu, x[0], a["k"])
+
+
+@ref("where")
+def _(x, a):
+    return _np(np.where, x[0] != 0, x[1], x[2])
+
+
+@ref("full_like")
+def _(x, a):
+    return np.full_like(x[0], a["fill"])
+
+
+@ref("zeros_like")
+def _(x, a):
+    return np.zeros_like(x[0])
+
+
+@ref("ones_like")
+def _(x, a):
+    return np.ones_like(x[0])
+
+
+@ref("arange")
+def _(x, a):
+    args = [v for v in (a["start"], a["stop"], a["step"])]
+    if a["step"] is not None and a["step"] == 0:
+        raise Invalid("zero step")
+    if a["start"] is None:
+        r = np.arange(a["stop"])
+    elif a["step"] is None:
+        r = np.arange(a["start"], a["stop"])
+    else:
+        r = np.arange(a["start"], a["stop"], a["step"])
+    return r.astype(np.float64 if a["dt"] == "f64" else np.int64)
+
+
+@ref("linspace")
+def _(x, a):
+    if a["num"] <= 0:
+        raise OutOfDomain("empty")
+    return _np(np.linspace, a["start"], a["stop"], a["num"], endpoint=a["endpoint"])
+
+
+@ref("eye")
+def _(x, a):
+    return _np(np.eye, a["N"], a["M"], a["k"], dtype=np.int64)
+
+
+@ref("identity")
+def _(x, a):
+    return np.identity(a["N"], dtype=np.int64)
+
+
+@ref("tri")
+def _(x, a):
+    return _np(np.tri, a["N"], a["M"], a["k"], dtype=np.int64)
+
+
+@ref("full")
+def _(x, a):
+    _pos(a["shape"], "extent")
+    return np.full(a["shape"], a["fill"], dtype=np.float64 if a["dt"] == "f64" else np.int64)
+
+
+@ref("zeros")
+def _(x, a):
+    _pos(a["shape"], "extent")
+    return np.zeros(a["shape"], dtype=np.float64 if a["dt"] == "f64" else np.int64)
+
+
+@ref("ones")
+def _(x, a):
+    _pos(a["shape"], "extent")
+    return np.ones(a["shape"], dtype=np.float64 if a["dt"] == "f64" else np.int64)
